@@ -194,7 +194,11 @@ func (e *Engine) invoke(st *State, ci *callInfo, isDeferred, isSpawn bool) []mul
 			if ci.recv != nil {
 				path = ci.recv.Loc()
 			}
-			e.emit(st, &Event{Kind: EvLock, Pos: pos, Op: op, Path: path, Recv: ci.recv, Callee: ci.callee, Write: op == "Lock" || op == "Unlock"})
+			lev := &Event{Kind: EvLock, Pos: pos, Op: op, Path: path, Recv: ci.recv, Callee: ci.callee, Write: op == "Lock" || op == "Unlock"}
+			if isDeferred {
+				lev.Note = "deferred" // `defer mu.Unlock()`: runs at every exit of the frame, panics included
+			}
+			e.emit(st, lev)
 			return []multiOut{{st, nil}}
 		}
 		switch name {
